@@ -23,12 +23,13 @@ Parameters (not modelled further): what the user renderable yields is given as a
 display writes for the same call.  Characters are assumed one cell wide.  The console is a terminal
 (`is_terminal`, not dumb, not Jupyter, not legacy Windows); `auto_refresh=False`.
 
-CODE VARIANT FLAGS (in `Cfg`): `bareBypass = true` is today's code, where `console.print()` /
-`console.log()` without arguments call `Console.line()` and bypass the render hooks (finding F19);
-`startGuard = false` is today's `Progress.start`, which pushes the hook, redirects io, hides the cursor
-and *then* calls `refresh()` unprotected; `resetShape = false` is today's `stop`, which keeps the
+CODE VARIANT FLAGS (in `Cfg`): `bareBypass = true` is rich 9.10.0 as found, where `console.print()` /
+`console.log()` without arguments call `Console.line()` and bypass the render hooks (finding F19; repaired by fix b373465);
+`startGuard = false` is the as-found `Progress.start` (repaired by fix 4e4f7e5), which pushes the hook, redirects io, hides the cursor
+and *then* calls `refresh()` unprotected; `resetShape = false` is the as-found `stop` (repaired by fix b4577f9), which keeps the
 recorded shape of the last frame (a later `start` then erases rows that belong to finished output) and
-leaves `vertical_overflow` at `"visible"`.
+leaves `vertical_overflow` at `"visible"`.  /repo contains the three repairs: `bareBypass = false`, `startGuard = true`,
+`resetShape = true` (the values the harness passes).
 -/
 namespace RichModel.Live
 open RichModel
